@@ -187,7 +187,7 @@ def xref_offsets_are_instruction_offsets(U, chunk):
         U.ensures("analysis does not raise", False, exc=repr(o.exc), **g)
         return
     dx, vms, index, prog = o.value
-    offs = {("LA;", "m1"): {0, 4}, ("LB;", "m1"): {8, 12}}
+    offs = {("LA;", "m1"): {0, 4}, ("LB;", "m1"): {8, 12, 16}}
     v = XS.view(dx)
     bad = []
     for mk, d in v["methods"].items():
@@ -208,3 +208,163 @@ def xref_offsets_are_instruction_offsets(U, chunk):
 
 
 xref_offsets_are_instruction_offsets.enumerate_inputs = lambda tier, chunk: XS.enum_inputs(tier, chunk)
+
+
+# ------------------------------------------------------------------------------------------------
+# Loop contracts (unbounded): DCode.off_to_pos / DCode.get_ins_off / EncodedMethod.get_instructions_idx over an instruction
+# sequence of ARBITRARY length.  The sequence is ghost: n symbolic, element k has length S(k+1) - S(k) for an uninterpreted
+# prefix-sum function S with S(0) = 0 and positive differences (instantiated at the indices the proof touches).  Quantifiers are
+# Skolemised: `w` is an arbitrary index whose offset equals the argument (witness mode), `j` an arbitrary earlier index.
+import z3  # noqa: E402
+
+from pyvc import core  # noqa: E402
+from pyvc.loops import AbstractSeq, LoopSpec  # noqa: E402
+
+
+class _GI:
+    """ghost instruction k of the abstract sequence"""
+
+    def __init__(self, world, k):
+        self.world, self.k = world, k
+
+    def get_length(self):
+        return self.world.S(self.k + 1) - self.world.S(self.k)
+
+
+class _SeqWorld:
+    def __init__(self, U, tag="c40"):
+        self.U = U
+        if U.mode == "sym":
+            self.n = U.int("n", 0, 1 << 24)
+            self.f = z3.Function("S_" + tag, z3.BitVecSort(core.W), z3.BitVecSort(core.W))
+            core.ctx().add_fact(self.f(z3.BitVecVal(0, core.W)) == 0)
+            self.items = None
+        else:
+            self.n = U.int("n", 0, 6)
+            self.lens = [2 * U.int("len%d" % i, 1, 5) for i in range(self.n)]
+            self.items = [_GI(self, i) for i in range(self.n)]
+
+    def S(self, k):
+        if self.U.mode != "sym":
+            return sum(self.lens[:k])
+        kt = core.SymInt.lift(k).t
+        t = self.f(kt)
+        c = core.ctx()
+        # instantiation of: S(k) in 0..2^34, 1 <= S(k+1) - S(k) <= 2^18  (instruction lengths are positive)
+        c.add_fact(z3.And(t >= 0, t <= (1 << 34), self.f(kt + 1) - t >= 1, self.f(kt + 1) - t <= (1 << 18)))
+        return core.SymInt(t, 0, 1 << 34)
+
+    def mono(self, a, b):
+        """instance of the lemma `S is strictly increasing` (induction on b - a from the positive differences)"""
+        if self.U.mode != "sym":
+            return
+        at, bt = core.SymInt.lift(a).t, core.SymInt.lift(b).t
+        core.ctx().add_fact(z3.And(z3.Implies(at < bt, self.f(at) < self.f(bt)), z3.Implies(bt < at, self.f(bt) < self.f(at))))
+
+    def seq(self):
+        if self.U.mode != "sym":
+            return list(self.items)
+        return AbstractSeq(self.n, lambda k: _GI(self, k), "instructions")
+
+
+def _inv_lookup(spec, L, k):
+    w, g = spec.G["world"], spec.G
+    inv = And(L["idx"] == w.S(k), (L["nb"] == k) if "nb" in L and spec.G.get("counts") else True)
+    if g.get("witness") is not None:
+        w.mono(k, g["witness"])
+        inv = And(inv, k <= g["witness"])
+    return inv
+
+
+LOOKUP_OFF = LoopSpec("DCode.get_ins_off#0", invariant=_inv_lookup, havoc={"idx": lambda s, L: s.G["U"].int("idx@", 0, 1 << 34)},
+                      const=("off", "self"))
+LOOKUP_POS = LoopSpec("DCode.off_to_pos#0", invariant=_inv_lookup,
+                      havoc={"idx": lambda s, L: s.G["U"].int("idx@", 0, 1 << 34), "nb": lambda s, L: s.G["U"].int("nb@", 0, 1 << 24)},
+                      const=("off", "self"))
+
+
+@unit("C40", covers=[(DEX, "DCode.get_ins_off"), (DEX, "DCode.off_to_pos")],
+      params=[{"fn": f, "mode": m} for f in ("get_ins_off", "off_to_pos") for m in ("witness", "free")],
+      loops={(DEX, "DCode.get_ins_off", 0): LOOKUP_OFF, (DEX, "DCode.off_to_pos", 0): LOOKUP_POS}, samples=150,
+      note="loop contract, any number of instructions: invariant idx = S(k) (and nb = k); witness mode: some index w has S(w) = off")
+def lookup_by_offset_unbounded(U, fn, mode):
+    dex = U.mod(DEX)
+    world = _SeqWorld(U)
+    seq = world.seq()
+    dc = object.__new__(dex.DCode)
+    dc.get_instructions = lambda: seq if U.mode == "sym" else iter(seq)        # callee contract: yields the instructions in order
+    if U.mode == "sym":
+        U.substitutions.append("DCode.get_instructions := contract (abstract instruction sequence of symbolic length)")
+    wit = None
+    if mode == "witness":
+        wit = U.int("w", 0, 1 << 24)
+        U.assume(wit < world.n)
+        off = world.S(wit)
+    else:
+        off = U.int("off", -4, (1 << 34) if U.mode == "sym" else 44)
+    for sp in (LOOKUP_OFF, LOOKUP_POS):
+        sp.G = {"world": world, "U": U, "witness": wit, "counts": sp is LOOKUP_POS}
+    o = U.call(getattr(dc, fn), off)
+    U.ensures("does not raise", o.ok, exc=repr(o.exc))
+    if not o.ok:
+        return
+    r = o.value
+    missing = (r is None) if fn == "get_ins_off" else Eq(r, -1)
+    if mode == "witness":
+        U.cover("an instruction starts at the offset")
+        if fn == "get_ins_off":
+            U.ensures("the instruction that starts at the offset is returned", r is not None and Eq(r.k, wit))
+        else:
+            U.ensures("the position of the instruction that starts at the offset is returned", Eq(r, wit))
+    else:
+        if fn == "get_ins_off":
+            if r is not None:
+                U.ensures("a returned instruction belongs to the method and starts exactly at the offset",
+                          And(0 <= r.k, r.k < world.n, world.S(r.k) == off))
+        else:
+            if not missing:     # forks
+                U.ensures("a returned position is an instruction index whose offset is exactly the argument",
+                          And(0 <= r, r < world.n, world.S(r) == off))
+
+
+def _inv_idx(spec, L, k):
+    return L["idx"] == spec.G["world"].S(k)
+
+
+IDX_LOOP = LoopSpec("EncodedMethod.get_instructions_idx#0", invariant=_inv_idx,
+                    havoc={"idx": lambda s, L: s.G["U"].int("idx@", 0, 1 << 34)}, const=("self",))
+
+
+@unit("C40", covers=[(DEX, "EncodedMethod.get_instructions_idx")], loops={(DEX, "EncodedMethod.get_instructions_idx", 0): IDX_LOOP},
+      samples=80, note="loop contract on the generator: an arbitrary iteration k yields (S(k), instruction k)")
+def instruction_offsets_unbounded(U):
+    dex = U.mod(DEX)
+    world = _SeqWorld(U)
+    seq = world.seq()
+    em = object.__new__(dex.EncodedMethod)
+    bc = _BCL(None)
+    bc.get_instructions = lambda: seq if U.mode == "sym" else iter(seq)
+    em.code = _CodeL(None)
+    em.code.bc = bc
+    em.get_code = lambda: em.code
+    IDX_LOOP.G = {"world": world, "U": U}
+    if U.mode == "sym":
+        g = em.get_instructions_idx()
+        o = U.call(lambda: next(g))
+        if o.raised(StopIteration):
+            U.cover("generator exhausted")
+            U.ensures("the generator ends only after the last instruction", IDX_LOOP.it.k == world.n)
+            return
+        U.ensures("does not raise", o.ok, exc=repr(o.exc))
+        if o.ok:
+            off, ins = o.value
+            k = IDX_LOOP.it.k - 1
+            U.cover("an arbitrary iteration yields")
+            U.ensures("iteration k yields instruction k together with the sum of the lengths before it", And(Eq(ins.k, k), off == world.S(k)))
+            U.call(lambda: next(g))       # the back edge: invariant preserved (path ends there)
+    else:
+        o = U.call(lambda: list(em.get_instructions_idx()))
+        U.ensures("does not raise", o.ok, exc=repr(o.exc))
+        if o.ok:
+            U.ensures("yields every instruction once, in order, with the sum of the lengths before it",
+                      len(o.value) == world.n and all(p[1] is seq[i] and p[0] == world.S(i) for i, p in enumerate(o.value)))
